@@ -23,6 +23,7 @@ import Vlsp.Model.DataDir
 import Vlsp.Model.Sites
 import Vlsp.Model.Parsers
 import Vlsp.Model.Pos
+import Vlsp.Model.Pypi
 import Vlsp.Model.Config
 
 /-! Line-protocol plumbing shared by the driver's op tables. -/
@@ -460,6 +461,28 @@ def allNodesList : List Node → List Node
   | [] => []
   | c :: rest => allNodes c ++ allNodesList rest
 end
+
+/-- the PyPI matcher model, the PEP 440 library's answers supplied with the request:
+    `pypi.base <spec>` ; `pypi.exists <spec> <specOk> (<v> <verOk> <contains>)*` ;
+    `pypi.cmp <cur> <latest> <specOk> <latestOk> <contains> <baseOk> <baseLe>` -/
+def pypiStep (op : String) (f : List Text) : Option String :=
+  let b (t : Text) : Bool := t == ['1']
+  match op, f with
+  | "pypi.base", [s] => some (hex (Pypi.extractBase (trim s)))
+  | "pypi.exists", spec :: specOk :: rest =>
+    let rec triples : List Text → List (Text × Bool × Bool)
+      | v :: a :: c :: r => (v, b a, b c) :: triples r
+      | _ => []
+    let tb := triples rest
+    let P : Pep440 := { specOk := fun _ => b specOk, verOk := fun v => (tb.find? (·.1 == v)).map (·.2.1) |>.getD false,
+                        contains := fun _ v => (tb.find? (·.1 == v)).map (·.2.2) |>.getD false, le := fun _ _ => false }
+    some (if Pypi.versionExists P spec (tb.map (·.1)) then "T" else "F")
+  | "pypi.cmp", [cur, latest, specOk, latestOk, contains, baseOk, baseLe] =>
+    let base := Pypi.extractBase (trim cur)
+    let P : Pep440 := { specOk := fun _ => b specOk, verOk := fun v => if v == latest then b latestOk else if v == base then b baseOk else false,
+                        contains := fun _ _ => b contains, le := fun _ _ => b baseLe }
+    some (Pypi.compareToLatest P cur latest).toString
+  | _, _ => none
 
 /-- `x.hyp <eco> <text> <dump>` : how many `string` nodes of the real tree satisfy the premise of the location theorems -/
 def hypStep (op : String) (f : List Text) : Option String :=
